@@ -9,6 +9,7 @@ CONSTANTS
   Ops = {"Set", "MemSet", "Commit", "Rollback", "CommitNP", "RollbackNP", "Reopen", "Redo", "Get", "Iter"}
   EmitOn = FALSE
   ChkIter = FALSE
-INVARIANTS Mark HashFunctional
+INVARIANTS Mark
+VIEW tview
 POSTCONDITION TraceDone
 CHECK_DEADLOCK FALSE
